@@ -56,6 +56,10 @@ impl Piece {
     }
 
     pub fn check(available_data: usize, length: usize) -> Result<usize, Error> {
+        if length < Piece::MIN_LEN {
+            return Err(Error::InvalidLength("Piece"));
+        }
+
         match length >= Piece::MIN_LEN && available_data >= Piece::LEN_SIZE + length {
             true => Ok(Piece::LEN_SIZE + length),
             false => Err(Error::Incomplete("Piece")),
